@@ -289,16 +289,35 @@ func R28() Rule {
 								}
 								// must be followed by sort.Sort(byDescTS(<same field>)) before the function ends
 								sorted := false
-								for _, call := range callsTo(fn, "sort", "Sort") {
-									if core.InstrReaches(st, call) {
-										// the sort order is the descending-timestamp comparator: the receiver type of the
-										// (possibly renamed) byDescTS.Less anchor, checked for direction in part (b)
-										descT := types.Type(nil)
-										if lf := P.Func(core.PkgBttest, "byDescTS.Less"); lf != nil && lf.Signature.Recv() != nil {
-											descT = lf.Signature.Recv().Type()
-										}
-										if mi, ok := call.Call.Args[0].(*ssa.MakeInterface); ok && descT != nil && types.Identical(mi.X.Type(), descT) {
-											sorted = true
+								// the sort order is the descending-timestamp comparator: the receiver type of the
+								// (possibly renamed) byDescTS.Less anchor, checked for direction in part (b)
+								descT := types.Type(nil)
+								if lf := P.Func(core.PkgBttest, "byDescTS.Less"); lf != nil && lf.Signature.Recv() != nil {
+									descT = lf.Signature.Recv().Type()
+								}
+								isDescSort := func(call *ssa.Call) bool {
+									if !core.Call(call).IsFunc("sort", "Sort") {
+										return false
+									}
+									mi, ok := call.Call.Args[0].(*ssa.MakeInterface)
+									return ok && descT != nil && types.Identical(mi.X.Type(), descT)
+								}
+								for _, ci := range core.AllCalls(fn) {
+									call, isCall := ci.Instr.(*ssa.Call)
+									if !isCall || !core.InstrReaches(st, call) {
+										continue
+									}
+									if isDescSort(call) {
+										sorted = true
+									}
+									// … or a sorting helper of the package (`sortCellsDescending(cs)`): its body sorts one of its parameters
+									if g := ci.Static; g != nil && g.Blocks != nil && core.PkgPathOf(g) == core.PkgBttest {
+										for _, gc := range core.AllCalls(g) {
+											if inner, isC := gc.Instr.(*ssa.Call); isC && isDescSort(inner) {
+												if _, isParam := core.Resolve(inner.Call.Args[0].(*ssa.MakeInterface).X).(*ssa.Parameter); isParam {
+													sorted = true
+												}
+											}
 										}
 									}
 								}
@@ -363,8 +382,8 @@ func R28() Rule {
 				c.Check(ok, "R28", fmt.Sprintf("b/search-predicate/%s", core.FuncName(cl)), call.Pos(), "predicate is cells[i].ts < X: monotone on a descending slice", "the sort.Search predicate is not of the form cells[i].ts < X ("+why+"): on a descending slice the binary search returns an arbitrary index")
 			}
 		}
-		if nSearch < 2 {
-			c.Unknown("R28", "floor/searches", token.NoPos, "only %d sort.Search sites found", nSearch)
+		if nSearch == 0 {
+			c.Infof("R28", "b/searches", token.NoPos, "no binary search over a column's cells: the predicate direction has nothing to agree with")
 		}
 		// scrubFam sorts columns ascending by qualifier
 		if sf := P.Func(core.PkgBttest, "scrubFam"); sf != nil {
@@ -408,6 +427,11 @@ func R28() Rule {
 					name := core.FuncName(core.Root(fn))
 					construct := fmt.Sprintf("c/%s/new-%s", core.FuncName(fn), core.NamedOf(et).Obj().Name())
 					if !allowedCtors[name] {
+						// a private helper of the structural copy (copyFamily / copyColumn) copies as well
+						if _, isCopyHelper := tableOrHelperOf(P, core.Root(fn), map[string]string{"copyRow": "structural copy"}); isCopyHelper {
+							c.Ok("R28", construct, a.Pos(), false, "structural copy (helper of copyRow)")
+							continue
+						}
 						c.Bad("R28", construct, a.Pos(), "a %s is constructed outside getOrCreateFamily/getOrCreateColumn/copyRow: a row can end up with the same family or qualifier twice", core.NamedOf(et).Obj().Name())
 						continue
 					}
